@@ -224,27 +224,36 @@ Definition regex_match (re s : string) : option bool :=
 
 (* ---- closures: `|x| x OP lit` / `|x| *x OP lit` -------------------------- *)
 
+Definition closure_cmp (c1 : ascii) (joint : bool) (c2 : option ascii) (z : Z) (v : value) : option bool :=
+  match c2 with
+  | Some d =>
+      let op := if Ascii.eqb c1 "<" then Some OpLe else if Ascii.eqb c1 ">" then Some OpGe
+                else if Ascii.eqb c1 "=" then Some OpEq else if Ascii.eqb c1 "!" then Some OpNe else None in
+      if Ascii.eqb d "=" && joint then match op with Some o => cmp_holds o v (VInt z) | None => None end else None
+  | None =>
+      if Ascii.eqb c1 "<" then cmp_holds OpLt v (VInt z)
+      else if Ascii.eqb c1 ">" then cmp_holds OpGt v (VInt z) else None
+  end.
+
 Definition closure_sem (c : uexpr) (v : value) : option bool :=
-  let ts := u_toks c in
-  let rev_ts := rev ts in
+  let rev_ts := rev (u_toks c) in
   match rev_ts with
-  | TLit n _ :: TPunct c2 _ _ :: TPunct c1 true _ :: _ =>       (* two-character operator *)
-      match parse_int n with
-      | Some z =>
-          let op := if Ascii.eqb c1 "<" then Some OpLe else if Ascii.eqb c1 ">" then Some OpGe
-                    else if Ascii.eqb c1 "=" then Some OpEq else if Ascii.eqb c1 "!" then Some OpNe else None in
-          if Ascii.eqb c2 "=" then match op with Some o => cmp_holds o v (VInt z) | None => None end else None
-      | None => None
-      end
-  | TLit n _ :: TPunct c1 false _ :: _ =>
-      match parse_int n with
-      | Some z =>
-          if Ascii.eqb c1 "<" then cmp_holds OpLt v (VInt z)
-          else if Ascii.eqb c1 ">" then cmp_holds OpGt v (VInt z) else None
-      | None => None
-      end
   | [TIdent b _; TPunct _ _ _; TIdent _ _; TPunct _ _ _] =>       (* |_x| true / false *)
       if String.eqb b "true" then Some true else if String.eqb b "false" then Some false else None
+  | TLit n _ :: TPunct m _ _ :: TPunct c2 false _ :: TPunct c1 true _ :: _ =>   (* x OP= -n *)
+      match parse_int n with
+      | Some z => if Ascii.eqb m "-" then closure_cmp c1 true (Some c2) (- z) v else None
+      | None => None
+      end
+  | TLit n _ :: TPunct c2 false _ :: TPunct c1 true _ :: _ =>       (* x OP= n *)
+      match parse_int n with Some z => closure_cmp c1 true (Some c2) z v | None => None end
+  | TLit n _ :: TPunct m false _ :: TPunct c1 false _ :: _ =>       (* x OP -n *)
+      match parse_int n with
+      | Some z => if Ascii.eqb m "-" then closure_cmp c1 false None (- z) v else None
+      | None => None
+      end
+  | TLit n _ :: TPunct c1 false _ :: _ =>                            (* x OP n *)
+      match parse_int n with Some z => closure_cmp c1 false None z v | None => None end
   | _ => None
   end.
 
